@@ -15,6 +15,7 @@ import (
 	"net/http/httptest"
 	"strings"
 
+	"github.com/go-chi/chi/v5"
 	"go.miragespace.co/specter/gateway"
 	"go.miragespace.co/specter/spec/protocol"
 	"golang.org/x/net/http/httpguts"
@@ -67,9 +68,24 @@ func router(c config) http.Handler {
 		}
 		h = gateway.VerifApex(wd, c.user, c.pass, ih)
 		routers[c] = h
+		// every route the real router has registered (chi.Walk) becomes a request target of the generator
+		if rt, ok := h.(chi.Routes); ok {
+			chi.Walk(rt, func(method, route string, _ http.Handler, _ ...func(http.Handler) http.Handler) error {
+				t := strings.ReplaceAll(route, "*", "x")
+				if strings.Contains(t, "{") || strings.Contains(t, "pprof") || seenRoute[method+" "+t] {
+					return nil
+				}
+				seenRoute[method+" "+t] = true
+				walked = append(walked, [2]string{method, t})
+				return nil
+			})
+		}
 	}
 	return h
 }
+
+var walked [][2]string
+var seenRoute = map[string]bool{}
 
 var chiMethods = map[string]bool{"CONNECT": true, "DELETE": true, "GET": true, "HEAD": true, "OPTIONS": true, "PATCH": true, "POST": true, "PUT": true, "TRACE": true}
 
@@ -323,7 +339,14 @@ func main() {
 		var hs []string
 		hs = append(hs, genAuth(rng, c)...)
 		hs = append(hs, genProxy(rng)...)
-		run(reqSpec{cfg: c, method: hlib.Pick(rng, methods), target: genPath(rng), headers: hs})
+		method, target := hlib.Pick(rng, methods), genPath(rng)
+		if len(walked) > 0 && rng.Intn(10) == 0 { // a route taken from the real routing tree
+			router(c)
+			w := hlib.Pick(rng, walked)
+			method, target = w[0], w[1]
+			r.Count("target:from-chi.Walk")
+		}
+		run(reqSpec{cfg: c, method: method, target: target, headers: hs})
 	}
 	r.Finish()
 }
